@@ -33,7 +33,7 @@ CLAIMED["C07"] = (
 CLAIMED["C08"] = (
     "model_checking",
     "BFS over timed traces of the real PeerFsm under a virtual-time interpretation of its timer outputs, interval-reference oracle in every state",
-    "For all 25 (local, remote) hold-time pairs from {0,3,9,90,65535} every timed trace up to the depth bound (connect, OPEN, fire-earliest-timer, advance 1 / h/3 / h-1 / h seconds then KEEPALIVE / UPDATE / ROUTE-REFRESH received or UPDATE sent) is executed on the real PeerFsm; in every state the armed hold deadline must equal last-received + min(local,remote), the keepalive deadline last-sent + h/3, ROUTE-REFRESH and sends must not re-arm the hold timer, and with a negotiated value of zero no timer may be armed, no expiry and no timer-driven KEEPALIVE may occur.",
+    "For all 49 (local, remote) hold-time pairs from {0,3,4,10,90,180,65535} every timed trace up to the depth bound (connect, OPEN, fire-earliest-timer, advance 0 / 1 / h/3 / h-1 / h seconds then KEEPALIVE / UPDATE / ROUTE-REFRESH received or UPDATE sent) is executed on the real PeerFsm; in every state the armed hold deadline must equal last-received + min(local,remote), the keepalive deadline last-sent + h/3, ROUTE-REFRESH and sends must not re-arm the hold timer, and with a negotiated value of zero no timer may be armed, no expiry and no timer-driven KEEPALIVE may occur.",
     "The timer semantics of the I/O driver are modelled (Set*Timer(n) replaces the pending sleep with now+n; hold served before keepalive before received messages), read off PeerSession::apply_outputs / run_select; real-time behaviour below one second is out of scope.",
     "DESIGN.md §5 C08",
 )
